@@ -46,10 +46,11 @@ CRASH_CLAUSE = {"C01", "C05", "C10", "C11", "C14", "C17", "C18"}
 COMPONENTS = {
     "runsim": {
         "real": ["all of src/CppUTest (CommandLineTestRunner, CommandLineArguments, TestRegistry, Utest/UtestShell, TestResult, TestOutput, JUnitTestOutput, TeamCityTestOutput, TestPlugin/SetPointerPlugin, MemoryLeakWarningPlugin, MemoryLeakDetector, SimpleString, TestFailure)",
-                 "src/Platforms/Gcc/UtestPlatform.cpp setjmp/longjmp stack (called through counting wrappers)", "glibc setjmp/longjmp, C++ exception unwinding", "glibc malloc as the platform heap", "expat as the XML judge"],
+                 "src/Platforms/Gcc/UtestPlatform.cpp setjmp/longjmp stack (called through counting wrappers), separate-process runner and its fork/waitpid functions (real code over wrapped libc fork/waitpid/kill)", "glibc setjmp/longjmp, C++ exception unwinding", "glibc malloc as the platform heap", "expat as the XML judge"],
         "simulated": ["clock (GetPlatformSpecificTimeInMillis/TimeString -> SimClock)", "console stream and files (PlatformSpecificFPuts/FOpen/FClose/Flush -> in-memory SimIO)",
                       "rand/srand (libc-faithful or adversarial SimRand)", "test programs (scripted SimTest bodies, scripted plugins)",
-                      "the static CommandLineTestRunner::RunAllTests wrapper is replaced by its own steps with a worker-lifetime leak plugin (see DESIGN 3)"],
+                      "libc fork/waitpid/kill (link-time wraps: scripted statuses, EINTR runs, fork failure; real children in the plain build)",
+                      "the static CommandLineTestRunner::RunAllTests entry point is replaced by its own steps with a per-run leak plugin for the simulated run; it is executed for real in an epilogue of some runs"],
     },
 }
 
@@ -69,7 +70,7 @@ COMPONENTS["mocksim"] = {
 }
 COMPONENTS["thrsim"] = {
     "real": ["src/CppUTest/MemoryLeakWarningPlugin.cpp thread-safe wrappers and switching, MemoryLeakDetector.cpp, TestMemoryAllocator.cpp, SimpleMutex.cpp (all four instrumented: every load/store is a yield point and feeds the race detector)", "TestHarness_c.cpp malloc wrappers (not instrumented)", "real pthreads (2-17 per run), glibc setjmp/longjmp for the misuse path, a real test through TestRegistry for the misuse-while-locked scenario"],
-    "simulated": ["thread scheduling (baton passing: one runnable thread at a time, seeded preemption at yield points, recorded schedule)", "the mutex (PlatformSpecificMutex* -> owner-tracking SimMutex with deadlock and self-deadlock detection)",
+    "simulated": ["thread scheduling (baton passing: one runnable thread at a time, seeded preemption at yield points, recorded schedule)", "the pthread mutex primitives under the library's own PThreadMutexCreate/Lock/Unlock/Destroy (link-time wraps of pthread_mutex_init/lock/trylock/unlock/destroy -> owner-tracking SimMutex with deadlock and self-deadlock detection)",
                   "the platform heap (fixed-address bump arena, zeroed per run)", "the TSan runtime (own __tsan_* callbacks: vector-clock happens-before detector whose only edges are the simulated mutex, thread start/join and block hand-off)", "MemoryLeakFailure (recording reporter) in the threads profile; the framework's own longjmp reporter in the locked_misuse profile"],
 }
 RULES = {
